@@ -2,7 +2,7 @@
 from props.common import *
 from props.C02 import pivot_queries
 
-FIN_SRCS = ['pxgstrf_synch.c', 'pmemory.c', ('util.c', ['-Dsuperlu_abort_and_exit=real_superlu_abort_and_exit']), 'pdutil.c']
+FIN_SRCS = ['pdgstrf_thread_finalize.c', 'pxgstrf_synch.c', 'pmemory.c', ('util.c', ['-Dsuperlu_abort_and_exit=real_superlu_abort_and_exit']), 'pdutil.c']
 
 def fin_query(pid, n, ns, nwork, timeout=900):
     q = Query('%s.finalize.n%d.s%d.w%d' % (pid, n, ns, nwork), 'fin_h.c', FIN_SRCS, defs={'N': n, 'NS': ns, 'NWORK': nwork},
